@@ -208,6 +208,23 @@ theorem core_exit (cfg : Cfg) (hf : cfg.fast = false) (s : St) (t : Nat) :
           intro _ _
           rw [recordTrace_core]; rfl
 
+/-- the flush at the TRACE_OFF update (repair of F-C07-TRACEOFF-FLUSH) marks frames written: invisible
+    for the filter state -/
+@[simp] theorem traceOffFlush_coreF (cfg : Cfg) (s : St) (tr : Trigger) :
+    (traceOffFlush cfg s tr).frames.map coreF = s.frames.map coreF := by
+  rw [traceOffFlush_frames]; split
+  · exact recordTrace_core _
+  · rfl
+
+@[simp] theorem traceOffFlush_length (cfg : Cfg) (s : St) (tr : Trigger) :
+    (traceOffFlush cfg s tr).frames.length = s.frames.length := by
+  rw [traceOffFlush_frames]; split
+  · exact recordTrace_length _
+  · rfl
+
+@[simp] theorem traceOffFlush_core (cfg : Cfg) (s : St) (tr : Trigger) : core (traceOffFlush cfg s tr) = core s := by
+  simp [core]
+
 theorem checkRstack_fst (cfg : Cfg) (s : St) :
     (checkRstack cfg s).1 = decide (s.frames.length + s.over ≥ cfg.maxStack) := by
   unfold checkRstack St.idx
@@ -357,11 +374,11 @@ theorem core_entry_cyg (cfg : Cfg) (hf : cfg.fast = false) (s : St) (f t0 : Nat)
         by_cases hlim : H.depth ≥ depthLimit cfg tr (eraseSv s'.filt)
         · simp only [hlim, ↓reduceIte, e1, e2, Bool.false_eq_true, decide_true, Bool.not_true, Bool.and_false,
             bumpDepth, Bool.not_false, Bool.true_or]
-          rw [core_entryFilterRecord cfg hf _ _ s'.frames tr hfin rfl]
+          rw [core_entryFilterRecord cfg hf _ _ _ tr hfin rfl]
           simp [core, key, h3, kv]
         · simp only [hlim, ↓reduceIte, e3, e4, Bool.false_eq_true, decide_false, Bool.not_false, Bool.and_true,
             bumpDepth, Bool.not_true, Bool.false_or]
-          rw [core_entryFilterRecord cfg hf _ _ s'.frames tr hfin rfl]
+          rw [core_entryFilterRecord cfg hf _ _ _ tr hfin rfl]
           have hb : eraseSv { G with depth := H.depth + 1 } = { H with depth := H.depth + 1 } := by
             rw [← key]; simp [eraseSv]
           simp [core, hb, h3, kI, kO, kS, kv, kM, kT, kH, eraseSv]
